@@ -525,3 +525,16 @@ def near_cnf_cfg(rng):
         R.append([rng.choice(V[1:]), len(R), []])
     used = sorted({n for _, _, rhs in R for k, n in rhs if k == 't'}) or [Sigma[0]]
     return {'V': V, 'Sigma': used, 'R': R, 'S': 'S'}
+
+
+def cnf_with_unproductive(rng):
+    """a grammar ALREADY in Chomsky normal form (no conversion, hence no copy, inside the library) with a variable that derives no word"""
+    G = random_cfg(rng, cnf=True, nvars=rng.randint(2, 3))
+    U = [c for c in 'UVWXYZ' if c not in G['V']][0]
+    body = [v for v in G['V'] if v != G['S']] or [U]
+    k = max([r[1] for r in G['R']] + [0]) + 1
+    G['V'] = G['V'] + [U]
+    G['R'] += [[U, k, [['v', U], ['v', U]]], [U, k + 1, [['v', rng.choice(body)], ['v', U]]]]
+    if rng.random() < 0.6:
+        G['R'].append([G['S'], k + 2, [['v', U], ['v', rng.choice(body)]]])
+    return G
